@@ -2,3 +2,4 @@
 import CtyModel.Props.C07
 import CtyModel.Props.C03
 import CtyModel.Props.C10
+import CtyModel.Props.C11
